@@ -99,6 +99,7 @@ partial def exprOf : SX → Except String Expr
   | .list [.atom "bool", .atom n] => pure (.lit (.bool (n = "1")))
   | .list [.atom "nil"] => pure (.lit .nil)
   | .list [.atom "var", .atom x] => pure (.var x)
+  | .list [.atom "dimvar", .atom x] => pure (.dimVar x)
   | .list [.atom "un", .atom o, a] => do pure (.un (← unOf o) (← exprOf a))
   | .list [.atom "bin", .atom o, a, b] => do pure (.bin (← binOf o) (← exprOf a) (← exprOf b))
   | .list [.atom "and", a, b] => do pure (.and (← exprOf a) (← exprOf b))
@@ -219,7 +220,7 @@ mutual
 /-- every function with the static name stack at its definition (driver-side twin of `collectE`
 that keeps the `Func`, for the environment-vector sizes) -/
 partial def funsE (bs : List Name) : Expr → List (List Name × Func)
-  | .lit _ | .var _ | .enumVal _ _ => []
+  | .lit _ | .var _ | .enumVal _ _ | .dimVar _ => []
   | .un _ a => funsE bs a
   | .bin _ a b | .and a b | .or a b | .assign a b | .while a b | .doWhile a b => funsE bs a ++ funsE bs b
   | .cond c t e => funsE bs c ++ funsE bs t ++ funsE bs e
